@@ -31,11 +31,14 @@ add("C23", "exploration",
     "flows) or by completeness counters plus a FIFO marker flush (multi-thread flows)",
     "Seeded flows of 20-200 operations injected by remotes or published through session_handle, "
     "re-injected from the same or other sessions with no gap, a few yields or quiescence in "
-    "between, a remote leaving mid-flow, sessions created before and after subscribe(). At "
+    "between, a remote leaving mid-flow, sessions created before and after subscribe(), sessions "
+    "joining late (after traffic has flowed) with old operations re-arriving through a late "
+    "joiner, and the same operation arriving on both topics. At "
     "quiescence every operation is judged: each session sent it at most once, never both "
     "accepted it from its remote and sent it to that remote, sessions of the other topic never "
-    "sent it, if any session accepted it every other live session of the topic sent it exactly "
-    "once and the manager stream yielded it exactly once (at most once in any case); a tap on "
+    "sent it (unless it arrived there too), whenever a session accepted it every other session "
+    "that was a live member of the topic at that moment sent it exactly once or accepted it "
+    "itself, and the manager stream yielded it exactly once (at most once in any case); a tap on "
     "each session's live channel checks that the manager never hands an operation back to the "
     "session that reported it. A second workload runs single sessions with windows of 1-8 "
     "operations so that the window really evicts: an arrival inside the window must produce "
